@@ -31,7 +31,13 @@ def setup_slot(k):
     rc, out = sh(f"git -C /repo worktree add --detach {d}/repo HEAD")
     if rc != 0:
         raise SystemExit("worktree add failed: " + out)
-    sh(f"rsync -a --exclude .git --exclude mc/target --exclude seeded /verif/ {d}/verif/")
+    rev = os.environ.get("MATRIX_VERIF_REV")
+    if rev:
+        # the harness as committed at REV (to try new changes against the harness they were written against)
+        os.makedirs(f"{d}/verif")
+        sh(f"git -C /verif archive {rev} -- . ':!seeded' | tar -x -C {d}/verif")
+    else:
+        sh(f"rsync -a --exclude .git --exclude mc/target --exclude seeded /verif/ {d}/verif/")
     ct = open(f"{d}/verif/mc/Cargo.toml").read().replace('path = "/repo"', f'path = "{d}/repo"')
     open(f"{d}/verif/mc/Cargo.toml", "w").write(ct)
     return d
